@@ -165,7 +165,14 @@ pub fn decode(prop: &str, sub: &str, data: &[u8]) -> Option<serde_json::Value> {
                     7 => Op::Finalize,
                     8 => Op::FinalizeXof(u.int_in_range(0u16..=200).ok()?),
                     9 => Op::FinalizeNonRoot,
-                    10 | 11 => Op::Reset,
+                    10 => Op::Reset,
+                    11 => {
+                        if u.arbitrary::<bool>().ok()? {
+                            Op::Reset
+                        } else {
+                            Op::TraitFinalizeReset(u.int_in_range(0u8..=2).ok()?)
+                        }
+                    }
                     12 => Op::Clone,
                     _ => Op::Swap,
                 };
